@@ -522,6 +522,42 @@ theorem single_to_list_spec (s : Schema) (f : Nat) (et : Ty) (nn : Bool) (iv : S
   simp only [hn]
   cases iv <;> first | (exact absurd rfl (hl _)) | (simp [Spec.isNullIV] at hn; done) | rfl | simp
 
+/-! ### single value → list: which dynamic types `CoerceList` treats specially (round 5)
+
+`CoerceList` may look INSIDE its argument (`len(v)`, `v[0]`) only when the argument is a slice: for a slice `len(v)`
+counts list items; for anything else (a `map[string]any` = ONE input object, a string, …) a length says nothing
+about a list, and the value is one item. The three statements below are over the type-switch table regenerated
+from `graphql/coercion.go`: a new `case map[string]any:` (or any other non-slice case), whatever its body, stops
+them closing. -/
+
+/-- a `case` type of the regenerated table that names a slice type (`[]…`) -/
+def isSliceCase (t : String) : Bool := t.toList.take 2 = ['[', ']']
+
+/-- **Only slices are special.** Every `case` of `graphql.CoerceList`'s type switch is a slice type; all other
+    dynamic types go through `default`. -/
+theorem coerceList_special_cases_are_slices :
+    ∀ a ∈ Gen.ScalarArms.fn_CoerceList, a.1 = "pre" ∨ a.1 = "post" ∨ a.1 = "default" ∨ isSliceCase a.1 = true := by
+  decide
+
+/-- **A single value takes the wrapping arm**, whatever it is: a scalar of any Go type, an input object with any
+    number of fields — also none —, … -/
+theorem single_takes_wrap_arm (v : Raw) (h : Single v = true) :
+    arm Gen.ScalarArms.fn_CoerceList v.goType = some "wrap" := by
+  cases v <;> simp [Single] at h <;> rfl
+
+/-- **The empty input object is one item.** `{}` (valid for every input type whose fields are all nullable or
+    defaulted) given where a list is expected is the one-item list of the item's own coercion — so the item's
+    field defaults are injected —, not the empty list; as a literal / schema default (`map[string]any{}`) and
+    through the validator's wrap of a variable (`[]map[string]any{{}}`). -/
+theorem empty_object_single_to_list (s : Schema) (c : Cfg) (f : Nat) (et : Ty) (nn : Bool) (el : Sh) (path : Path) :
+    coerceList (.obj []) = [.obj []] ∧ coerceList (.typed .maps [.obj []]) = [.obj []] ∧
+    unm s c (f + 1) (.list et nn) (.slice el) (.obj []) path =
+      (match unm s c (f + 1) et el (.obj []) (path ++ ["0"]) with
+       | .ok g => .ok (.slice [g])
+       | .error e => .error e) :=
+  ⟨coerceList_single _ rfl, (single_to_list_through_variable_wrap (.obj []) rfl).trans (coerceList_single _ rfl),
+   single_to_list s c f et nn el (.obj []) path rfl⟩
+
 /-! ## omitted vs explicit null vs value -/
 
 /-- **Omitted vs explicit null vs value, struct-backed inputs with `nullable_input_omittable`.** -/
@@ -775,5 +811,30 @@ example :
 example : canon (.obj [("n", .num "5"), ("o", .nil)]) = true ∧
     fits exSchema (shapeRef exSchema exOm (.list (.named "In" true) false)) (.list (.named "In" true) false) = true := by
   decide
+
+/-- `input Item { n: Int = 7  tag: String }`, `input Box { items: [Item!] = {} }` -/
+def exItems : Schema :=
+  { types := [("Int", .scalar .int), ("String", .scalar .string),
+      ("Item", .input false [⟨"n", "N", .named "Int" false, some (.int 7), false⟩, ⟨"tag", "Tag", .named "String" false, none, false⟩]),
+      ("Box", .input false [⟨"items", "Items", .list (.named "Item" true) false, some (.obj []), false⟩])] }
+
+/-- `items(v: {})`, `items(v: $x)` with `{"x": {}}`, `box(v: {items: {}})` and `box(v: {})` (the field default `{}`)
+    all hand the resolver ONE item carrying the default `n = 7`; `[]` stays the empty list, `[{}]` is the same one
+    item. -/
+example : (fieldArgs exItems {} [] (argV (.list (.named "Item" true) false)) [("v", .obj [])] ["f"]).map (·.map render)
+    = .ok ["[&{N:&7,Tag:nil}]"] := by rfl
+example : (fieldArgs exItems {} [("x", .typed .maps [.obj []])] (argV (.list (.named "Item" true) false)) [("v", .var "x")] ["f"]).map (·.map render)
+    = .ok ["[&{N:&7,Tag:nil}]"] := by rfl
+example : (fieldArgs exItems {} [] (argV (.list (.named "Item" true) false)) [("v", .list [.obj []])] ["f"]).map (·.map render)
+    = .ok ["[&{N:&7,Tag:nil}]"] := by rfl
+example : (fieldArgs exItems {} [] (argV (.list (.named "Item" true) false)) [("v", .list [])] ["f"]).map (·.map render)
+    = .ok ["[]"] := by rfl
+example : (fieldArgs exItems {} [] (argV (.named "Box" false)) [("v", .obj [("items", .obj [])])] ["f"]).map (·.map render)
+    = .ok ["&{Items:[&{N:&7,Tag:nil}]}"] := by rfl
+example : (fieldArgs exItems {} [] (argV (.named "Box" false)) [("v", .obj [])] ["f"]).map (·.map render)
+    = .ok ["&{Items:[&{N:&7,Tag:nil}]}"] := by rfl
+/-- the specification says the same -/
+example : Spec.fieldStep {} exItems {} [] (argV (.list (.named "Item" true) false)) [("v", .obj [])] ["f"]
+    = .call [.slice [.ptr (.struct [("N", .ptr (.int 7)), ("Tag", .nil)])]] := by rfl
 
 end GqlgenVerif.Props.C02
